@@ -67,12 +67,25 @@ JudgeValue ==
           ELSE IF \E k \in 1..Len(js) : js[k] = "indet" THEN Stop("oracle_indeterminate", "indet")
           ELSE Go("value_ok", "rounded")
 
+(* C03.  The record carries the float x that was rendered ("expect") and the *)
+(* kind of rendering.  The rendering itself is validated first: it must      *)
+(* denote a value that rounds to x (and equal x exactly for "exact");        *)
+(* otherwise the harness / formatter is at fault, not the parser.            *)
 JudgeExpect ==
   /\ pc = "value_ok"
-  /\ LET r == Recs[i] IN
-     IF CheckExpect /\ \E k \in 1..Len(r.outs) : r.outs[k].kind = "value" /\ r.outs[k].bits # r.expect
-     THEN Stop("impl_violates", "result differs from the float that was rendered")
-     ELSE Go("expect_ok", IF CheckExpect THEN "roundtrip" ELSE "-")
+  /\ IF ~CheckExpect THEN Go("expect_ok", "-")
+     ELSE LET r == Recs[i]
+              F == FmtOf(r)
+              dv == DecVal(r.int, r.frac, r.exp)
+              dc == Decode(F, r.expect)
+              rendering_ok == /\ Judge(F, r.expect, dv) = "ok"
+                              /\ (r.render = "exact" =>
+                                    IF dc.class = "zero" THEN dv.kind = "zero"
+                                    ELSE dv.kind = "norm" /\ ~dv.tail /\ CmpV(dv.D, dv.E, dc.m, dc.e) = 0)
+          IN IF ~rendering_ok THEN Stop("input_invalid", "rendering does not denote the float: " \o r.render)
+             ELSE IF \E k \in 1..Len(r.outs) : r.outs[k].kind = "value" /\ r.outs[k].bits # r.expect
+             THEN Stop("impl_violates", "does not parse back to the float that was rendered (" \o r.render \o ")")
+             ELSE Go("expect_ok", "roundtrip:" \o r.render)
 
 JudgeAgree ==
   /\ pc = "expect_ok"
